@@ -41,8 +41,9 @@ Definition bn_eqb (a b : bytes * nat) : bool := bytes_eqb (fst a) (fst b) && Nat
 Definition an_eqb (a b : api_event * nat) : bool := api_event_eqb (fst a) (fst b) && Nat.eqb (snd a) (snd b).
 Definition evs_eqb (a b : list api_event * nat) : bool := list_eqb api_event_eqb (fst a) (fst b) && Nat.eqb (snd a) (snd b).
 
-(* a script over a wpIterator: true = Get, false = Next; observation of every Get *)
-Fixpoint wp_script (fp : bytes -> outcome bytes) (s : wpit) (ops : list bool) : list (outcome levent) :=
+(* a script over a wpIterator: true = Get, false = Next; observation of every Get: Ok (Some event) | Ok None =
+   io.EOF | Err = another error | Panic *)
+Fixpoint wp_script (fp : bytes -> outcome bytes) (s : wpit) (ops : list bool) : list (outcome (option levent)) :=
   match ops with
   | [] => []
   | true :: tl => let '(s', r) := wp_get fp s in r :: wp_script fp s' tl
@@ -68,7 +69,7 @@ Fixpoint validate_trace (fuel : nat) (cfg : jcfg) (st : cstate) (obs : list (nat
   | O => false
   | S f =>
       match obs with
-      | [] => forallb (fun wr => match wr_it wr with [] => true | _ => false end) (cs_ws st)
+      | [] => forallb (fun wr => match fit_prefix (w_limit cfg) (wr_it wr) with [] => true | _ => false end) (cs_ws st)
       | (w, _) :: _ =>
           match cstep (S (length obs)) cfg st w with
           | Ok st' =>
@@ -121,7 +122,7 @@ Inductive case :=
 | KWpEnc (tags flds : bytes) (evs : list api_event) (enc : bytes)  (* writePacket.WriteTo *)
 | KEvsDec (buf : bytes) (obs : outcome (list api_event * nat))     (* unmarshalQueryResult, event list *)
 | KEvsEnc (evs : list api_event) (enc : bytes)                     (* writeQueryResult, event list (prefix of the body) *)
-| KWpIter (ftab : list (bytes * outcome bytes)) (buf : bytes) (init : outcome bytes) (ops : list bool) (obs : list (outcome levent))
+| KWpIter (ftab : list (bytes * outcome bytes)) (buf : bytes) (init : outcome bytes) (ops : list bool) (obs : list (outcome (option levent)))
 (* end to end *)
 | KE2E (cfg : jcfg) (ftab ntab : list (bytes * outcome bytes)) (kvtab : list (bytes * bytes)) (reqs : list req)
        (acks : list bool) (wes : list (option (option wevent)))
@@ -150,7 +151,7 @@ Definition check (c : case) : bool :=
   | KWpIter ftab buf init ops obs =>
       let fp := tab_lookup ftab in
       match wp_init fp buf with
-      | Ok (tags, it) => outcome_eqb bytes_eqb (Ok tags) init && list_eqb (outcome_eqb levent_eqb) (wp_script fp it ops) obs
+      | Ok (tags, it) => outcome_eqb bytes_eqb (Ok tags) init && list_eqb (outcome_eqb (option_eqb levent_eqb)) (wp_script fp it ops) obs
       | Err => outcome_eqb bytes_eqb Err init
       | Panic => outcome_eqb bytes_eqb Panic init
       | OutOfFuel => false
